@@ -280,7 +280,7 @@ def evaluate_groups(ctx, cases, res):
 def run(ctx):
     res = Results()
     rng = ctx.rng
-    ng = 4000 if ctx.deep else 500
+    ng = (20000 if ctx.tier == 'thorough' else 4000) if ctx.deep else 500
     evaluate_groups(ctx, [gen_group_case(rng) for _ in range(ng)], res)
     res['scopes']['group_programs'] = ng
     corp = []
@@ -295,7 +295,7 @@ def run(ctx):
         shapes = [s for i, s in enumerate(shapes) if (i + ctx.seed) % 6 == 0]
     evaluate(ctx, shapes, res)
     res['scopes']['enumerated_shapes'] = len(shapes)
-    n = 8000 if ctx.deep else 1500
+    n = (40000 if ctx.tier == 'thorough' else 8000) if ctx.deep else 1500
     progs = [T.gen(rng, 4, tie_prone=(i % 3 == 0)) for i in range(n)]
     evaluate(ctx, progs, res)
     res['scopes']['generated_programs'] = n
